@@ -135,6 +135,7 @@ type Result struct {
 	Samples              []interface{}          `json:"samples"`
 	Divergences          []Divergence           `json:"divergences"`
 	DisagreementsChecked int                    `json:"disagreements_checked"`
+	HangsRerun           int                    `json:"hangs_rerun_alone"`
 	Exhaustive           bool                   `json:"exhaustive"`
 	Extra                map[string]interface{} `json:"extra,omitempty"`
 	WallS                float64                `json:"wall_s"`
@@ -465,6 +466,15 @@ func Run(p Prop, cfg *Config) (*Result, error) {
 		}(i)
 	}
 	wg.Wait()
+	// A case that ran into the time-out while the other cases (and whatever else the machine
+	// is doing) competed with it is run once more on its own: only a case that does not
+	// return then either is reported as a hang.
+	for i := range cases {
+		if len(implOut[i]) > 0 && strings.HasPrefix(implOut[i][0], "HARNESS-HANG") {
+			res.HangsRerun++
+			implOut[i] = safeRunImpl(p, cases[i])
+		}
+	}
 	var modelOut [][]string
 	if p.Model() != "" {
 		var err error
